@@ -239,6 +239,25 @@ func cmdCheck(args []string) int {
 					}
 				}
 			}
+			dropped := map[string]int{}
+			for _, o := range r.Obls {
+				found := false
+				for _, k := range keep {
+					if k == o {
+						found = true
+					}
+				}
+				if !found && !o.Cover && !(o.Kind == "safety" && !safetySet[f]) {
+					dropped[o.Kind]++
+				}
+			}
+			if len(dropped) > 0 {
+				var ds []string
+				for _, k := range sortedKeys(dropped) {
+					ds = append(ds, fmt.Sprintf("%d x %s", dropped[k], k))
+				}
+				assumedSet[fmt.Sprintf("%s: only obligations of kind %v are claimed for this property; not claimed and therefore assumed on the paths that continue: %s", f, kf, strings.Join(ds, ", "))] = true
+			}
 			r.Obls = keep
 		}
 		addRep(r, safetySet[f])
@@ -460,6 +479,10 @@ func cmdCheck(args []string) int {
 	for _, a := range sortedKeys(assumedSet) {
 		if fnClass[a] == "P" {
 			continue // proved in this very run
+		}
+		if strings.Contains(a, ": only obligations of kind") {
+			assumptions = append(assumptions, "partial claim: "+a)
+			continue
 		}
 		if strings.Contains(a, ": explicit assume[") {
 			assumptions = append(assumptions, "explicit assumption inside a contract (never proved): "+a)
